@@ -1,6 +1,7 @@
 package verifh
 
 import (
+	"fmt"
 	"io"
 	"os"
 	"path/filepath"
@@ -14,7 +15,7 @@ func c09Sizes() []int64 { return []int64{0, 1, 2047, 2048, 2049} }
 func TestC09(t *testing.T) {
 	r := NewReporter(t)
 	defer r.Done()
-	r.Rule("every tree with <= N nodes (file sizes 0,1,2047,2048,2049), both modes for a subset: canonical image = one sequential read; then all single ops and op sequences of depth <= 3 (Seek.Read.Read, Read.ReadAt.Read, relative/end seeks) over offsets = structural boundaries (metadata end, each file start/end/padded end, pad-area start, size) +-1 and lengths {1,2,2047,2048,2049,65536,65537, to-next-boundary +-1}; oracle = bytes.Reader semantics over the canonical image; distinct by (tree, mode, op sequence)")
+	r.Rule("every tree with <= N nodes (file sizes 0,1,2047,2048,2049), both modes for a subset, plus the directory-shape families of C07 (entries per directory, exact sector fit, depth, many directories, symbolic links) with a reduced offset set: canonical image = one sequential read; then all single ops and op sequences of depth <= 3 (Seek.Read.Read, Read.ReadAt.Read, relative/end seeks) over offsets = structural boundaries (metadata end, each file start/end/padded end, pad-area start, size) +-1 and lengths {1,2,2047,2048,2049,65536,65537, to-next-boundary +-1}; oracle = bytes.Reader semantics over the canonical image; distinct by (tree, mode, op sequence)")
 	base := filepath.Join(scratchBase(), sprintf("verifh-c09-%d", os.Getpid()))
 	root := filepath.Join(base, "root")
 	defer os.RemoveAll(base)
@@ -38,20 +39,47 @@ func TestC09(t *testing.T) {
 			}
 		})
 	}
+	// directory-shape families (entries per directory 1..N, records ending exactly on a sector boundary, deep
+	// chains, many directories, prefix-related names, symbolic links): sizes of the metadata area are predicted
+	// in one place and written in another - every byte of the announced size must be readable
+	isoFamilyCases(r.Thorough(), false, func(c isoCase) {
+		if c.huge {
+			return
+		}
+		if !r.Thorough() {
+			var n, l int
+			if k, _ := fmt.Sscanf(c.desc, "entries-per-dir=%d", &n); k == 1 && n > 70 && n%10 != 0 {
+				return
+			}
+			if k, _ := fmt.Sscanf(c.desc, "exact-fit name-length=%d entries=%d", &l, &n); k == 2 && l > 24 && l%8 != 0 {
+				return
+			}
+		}
+		idx++
+		if !r.Mine(idx) || r.TimeUp() {
+			return
+		}
+		c09Case(r, root, c.desc, c.desc, c.build, c.ps3, true, true, false)
+	})
 }
 
 func c09Tree(r *Reporter, root string, tr Tree, ps3 bool, light bool) {
+	c09Case(r, root, sprintf("tree[%s] ps3=%v", tr.String(), ps3), tr.Nodes, tr.Materialize, ps3, light, false, len(tr.Nodes) == 2 && !ps3)
+}
+
+// c09Case: minimal = family cases with many entries: only the boundaries next to the metadata end, the first
+// files and the image end are probed (every probe re-opens the view).
+func c09Case(r *Reporter, root, desc string, treeRep any, build func(dir string), ps3, light, minimal, sample bool) {
 	os.RemoveAll(root)
 	dir := filepath.Join(root, "T")
 	must(os.MkdirAll(dir, 0o755))
-	tr.Materialize(dir)
+	build(dir)
 	if ps3 {
 		writeFileAbs(filepath.Join(dir, "PS3_GAME", "PARAM.SFO"), mkSFO([]sfoKV{{"TITLE_ID", "BLES01234"}}), baseTime)
 	}
-	desc := sprintf("tree[%s] ps3=%v", tr.String(), ps3)
 	r.State(desc)
 	rep := func(ops []ioOp) map[string]any {
-		return map[string]any{"tree": tr.Nodes, "ps3": ps3, "ops": ops}
+		return map[string]any{"tree": treeRep, "case": desc, "ps3": ps3, "ops": ops}
 	}
 	v, err := openVISO(root, "/T", ps3)
 	r.Transition(1)
@@ -83,6 +111,17 @@ func c09Tree(r *Reporter, root string, tr Tree, ps3 bool, light bool) {
 	r.Nontrivial(desc)
 	mask := isoVarMask(ps3) // a fresh view has fresh timestamps / random filler
 	bounds := structuralBoundaries(img)
+	if minimal && len(bounds) > 8 {
+		// boundaries are sorted: keep the first three behind the volume descriptors (directory area, end of the
+		// metadata = start of the first file) and the last three (last file end, pad area, size)
+		var keep []int64
+		for i, b := range bounds {
+			if i >= len(bounds)-3 || (b > 20*2048 && len(keep) < 3) {
+				keep = append(keep, b)
+			}
+		}
+		bounds = uniqSorted(keep)
+	}
 	var offs []int64
 	for _, b := range bounds {
 		for _, d := range []int64{-1, 0, 1} {
@@ -166,7 +205,7 @@ func c09Tree(r *Reporter, root string, tr Tree, ps3 bool, light bool) {
 		}
 		run(ops)
 	}
-	if len(tr.Nodes) == 2 && !ps3 {
-		r.Sample(map[string]any{"tree": tr.String(), "image_size": announced, "boundaries": bounds})
+	if sample {
+		r.Sample(map[string]any{"tree": desc, "image_size": announced, "boundaries": bounds})
 	}
 }
